@@ -59,6 +59,39 @@ func init() {
 		}
 		return val.Ok(val.Ints(s))
 	})
+	// builder_rt [parts]: Secrets() then ParseSecrets(); the result is summarised (part lengths, equal to the input or not)
+	vc.Register("builder_rt", func(a []val.V) val.V {
+		b := cmt.NewBuilder()
+		var in [][]*big.Int
+		for _, p := range val.AsList(a[0]) {
+			in = append(in, val.AsInts(p))
+			b.AddPart(val.AsInts(p))
+		}
+		s, err := b.Secrets()
+		if err != nil {
+			return val.A("BuildErr")
+		}
+		ps, err := cmt.ParseSecrets(s)
+		if err != nil {
+			return val.A("ParseErr")
+		}
+		same := len(ps) == len(in)
+		lens := make([]*big.Int, len(ps))
+		for i, p := range ps {
+			lens[i] = big.NewInt(int64(len(p)))
+			if same && len(p) == len(in[i]) {
+				for k := range p {
+					if p[k].Cmp(in[i][k]) != 0 {
+						same = false
+						break
+					}
+				}
+			} else {
+				same = false
+			}
+		}
+		return val.Ok(val.L(val.Ints(lens), val.Bool(same)))
+	})
 	vc.Register("bparse", func(a []val.V) val.V {
 		ps, err := cmt.ParseSecrets(val.AsInts(a[0]))
 		if err != nil {
@@ -338,6 +371,17 @@ func genC16(r *vc.Run) {
 		new(big.Int).Add(new(big.Int).Exp(two, big.NewInt(65), nil), big.NewInt(2)),
 		new(big.Int).Exp(two, big.NewInt(200), nil),
 		big.NewInt(-1), big.NewInt(-2),
+	}
+	// the size limit itself: one part of exactly MaxPartSize - 1, MaxPartSize, MaxPartSize + 1 elements, built and parsed back
+	// (the builder and the parser must agree at the boundary)
+	for _, n := range []int{1<<20 - 1, 1 << 20, 1<<20 + 1} {
+		part := make([]*big.Int, n)
+		for i := range part {
+			part[i] = big.NewInt(int64(i%7 + 1))
+		}
+		for _, layout := range [][]val.V{{val.Ints(part)}, {val.Ints([]*big.Int{big.NewInt(9)}), val.Ints(part)}} {
+			r.Case("builder/size-limit", true, "builder_rt", val.List(layout))
+		}
 	}
 	for _, f := range forged {
 		for tail := 0; tail <= 4; tail++ {
